@@ -208,7 +208,7 @@ class StilTransformer(Transformer):
             elif t.data == 'scan_out':
                 scan_out = t.children[0]
             if t.data == 'scan_cells':
-                scan_cells = [n.replace('.SI', '') for n in t.children]
+                scan_cells = [re.sub(r'\.SI$', '', n) for n in t.children]
                 scan_cells = [re.sub(r'.*\.', '', s) if '.' in s else s for s in scan_cells]
         return args[0], ([scan_in] + scan_cells + [scan_out])
 
